@@ -33,7 +33,41 @@ def toa (sf hz : Int) (de ih : Bool) (crDenom len : Int) (preamble : Option Int)
   | some p => ((4 * p + 17 + 4 * n) * tsym sf hz) / 4
 
 /-- LDRO rule of the datasheets: on exactly when the symbol time is at least 16.38 ms,
-stated without truncation: `2^SF · 10^6 ≥ 16380 · BW`. -/
+stated without truncation: `2^SF · 10^6 ≥ 16380 · BW`, for a bandwidth given in whole hertz. -/
 def ldro (sf hz : Int) : Bool := decide (2 ^ sf.toNat * 1000000 ≥ 16380 * hz)
+
+/-! ## The bandwidths as the chips realise them
+
+The ten LoRa bandwidth settings are fractions of the 32 MHz reference: 500 kHz / 2^k
+(500, 250, 125, 62.5, 31.25, 15.625, 7.8125 kHz) and 125 kHz / 3, / 6, / 12 (41.667, 20.833,
+10.417 kHz).  The datasheets print them rounded (7.81, 10.42, 15.63, 20.83, 41.67 kHz; SX127x: 7.8,
+10.4, 15.6, 20.8, 41.7); Semtech's own drivers (`sx126x_get_lora_bw_in_hz`, `sx127x_get_lora_bw_in_hz`,
+`lr11xx_radio_get_lora_bw_in_hz` of SWL2001) return 7812, 10417, 15625, 20833, 31250, 41667, 62500 Hz.
+A decision about the *symbol time* `2^SF / BW` is a decision about these physical values, not about a
+rounded figure: this table is the specification's own and is NOT taken from the Rust code. -/
+
+/-- The ten settings, by the kHz label of the datasheets. -/
+inductive Bw where
+  | k7 | k10 | k15 | k20 | k31 | k41 | k62 | k125 | k250 | k500
+  deriving DecidableEq, Repr, Inhabited
+
+def Bw.all : List Bw := [.k7, .k10, .k15, .k20, .k31, .k41, .k62, .k125, .k250, .k500]
+
+/-- physical bandwidth in units of 1/6 Hz (so that 7812.5 Hz and 125000/3 Hz are integers) -/
+def Bw.hz6 : Bw → Int
+  | .k7 => 46875      -- 500 kHz / 64  = 7 812.5 Hz
+  | .k10 => 62500     -- 125 kHz / 12  = 10 416.67 Hz
+  | .k15 => 93750     -- 500 kHz / 32  = 15 625 Hz
+  | .k20 => 125000    -- 125 kHz / 6   = 20 833.33 Hz
+  | .k31 => 187500    -- 500 kHz / 16  = 31 250 Hz
+  | .k41 => 250000    -- 125 kHz / 3   = 41 666.67 Hz
+  | .k62 => 375000    -- 62 500 Hz
+  | .k125 => 750000
+  | .k250 => 1500000
+  | .k500 => 3000000
+
+/-- LDRO rule on the physical symbol time: `2^SF / (hz6 / 6) ≥ 16.38 ms`, i.e.
+`2^SF · 600 000 ≥ 1638 · hz6` — exact, no rounding anywhere. -/
+def ldroPhys (sf : Int) (b : Bw) : Bool := decide (2 ^ sf.toNat * 600000 ≥ 1638 * b.hz6)
 
 end Spec.Airtime
